@@ -2,6 +2,7 @@ import LitexModel.Periph.Timers
 import LitexModel.Periph.Uart
 import LitexModel.Periph.Spi
 import LitexModel.Periph.I2c
+import LitexModel.Periph.I2cMaster
 import LitexModel.DriverLib
 import LitexModel.Bits
 /-
@@ -22,6 +23,8 @@ import LitexModel.Bits
                                 out: pads.miso start length done irq mosi(received)
   open i2c <cw>                 in : start stop write read sda_i load poke data ack
                                 out: scl_o sda_o idle data ack
+  open i2cmaster                in : bus.cyc bus.stb bus.we bus.adr[0] bus.dat_w ext_scl ext_sda
+                                out: pads.scl pads.sda bus.ack bus.dat_r idle
 -/
 namespace Litex.Periph
 open Litex Litex.Driver
@@ -129,6 +132,17 @@ def numI2c (cw : Nat) : NumMachine I2cSt where
     | _ => none
   key s := toString (repr s)
 
+def numI2cMaster : NumMachine I2cmSt where
+  init := i2cMaster.init
+  step s ins := match ins with
+    | [cyc, stb, we, adr, dat, escl, esda] =>
+      let i : I2cmIn := { cyc := n2b cyc, stb := n2b stb, we := n2b we, adr0 := n2b adr, datW := trunc 32 dat,
+                          extScl := n2b escl, extSda := n2b esda }
+      let o := i2cMaster.out s i
+      some (i2cmNext s i, [b2n o.padScl, b2n o.padSda, b2n o.busAck, o.datR, b2n o.idle])
+    | _ => none
+  key s := toString (repr s)
+
 def openMachine (args : List String) (hin hout : IO.FS.Stream) : Option (IO Bool) :=
   match args.head?, parseNats args.tail with
   | some "timer", some [w] => some (serve (numTimer w) hin hout)
@@ -142,6 +156,7 @@ def openMachine (args : List String) (hin hout : IO.FS.Stream) : Option (IO Bool
   | some "spimaster", some [dw, al] => some (serve (numSpiMaster { dw := dw, aligned := n2b al }) hin hout)
   | some "spislave", some [dw] => some (serve (numSpiSlave dw) hin hout)
   | some "i2c", some [cw] => some (serve (numI2c cw) hin hout)
+  | some "i2cmaster", some [] => some (serve numI2cMaster hin hout)
   | _, _ => none
 
 end Litex.Periph
